@@ -62,8 +62,14 @@ def group_name(i):
     return f"g{i}"
 
 
-def walltime_str(minutes):
-    return f"{minutes // 60}:{minutes % 60:02d}:00"
+def walltime_str(minutes, pad=False):
+    return f"{minutes // 60:02d}:{minutes % 60:02d}:00" if pad else f"{minutes // 60}:{minutes % 60:02d}:00"
+
+
+def group_walltime(g):
+    """The group's walltime as written into its SLURM parameters: `walltime` minutes x `tscale` (estimates of the group's
+    jobs are scaled alike, so limits in 'units' are unchanged), hours optionally zero-padded."""
+    return walltime_str(g["walltime"] * g.get("tscale", 1), g.get("pad", False))
 
 
 def make_groups(scn):
@@ -76,7 +82,7 @@ def make_groups(scn):
             hpc = HpcConfig(
                 hpc_type="slurm",
                 job_prefix=f"pre{gi}",
-                hpc=SlurmConfig(account=f"acct{gi}", walltime=walltime_str(g["walltime"]), partition=f"part{gi}",
+                hpc=SlurmConfig(account=f"acct{gi}", walltime=group_walltime(g), partition=f"part{gi}",
                                 qos=("high" if gi % 2 else None)),
             )
         sp = SubmitterParams(
@@ -116,7 +122,7 @@ def make_config(scn):
                 command=f"jobcmd {j['name']}",
                 blocked_by=set(j["blocked_by"]),
                 cancel_on_blocking_job_failure=j["cancel"],
-                estimated_run_minutes=j["est"],
+                estimated_run_minutes=j["est"] * scn["groups"][j["group"]].get("tscale", 1),
                 submission_group=group_name(j["group"]),
             )
         )
